@@ -378,6 +378,8 @@ func mkJobs(n int, targets [][]int, upperID int) []jobIn {
 			v := "zz"
 			if t < n {
 				v = names[t%8] + strings.Repeat("x", t/8)
+			} else if t > n {
+				v = []string{"yy", "ww", "vv"}[(t-n-1)%3] // further ids that do not exist
 			}
 			if up {
 				v = strings.ToUpper(v)
@@ -398,11 +400,14 @@ func runC18(c *ctx, r *Report) error {
 	if !c.quick {
 		n4, n5, nBig = 65536, 60000, 3000
 	}
-	r.Rule = fmt.Sprintf("every digraph on 1..3 jobs incl. self loops and a dangling target, every order of each job's needs list; %d digraphs on 4 jobs (all 65536 edge sets in thorough tier); %d random digraphs on 5 jobs with duplicate / re-cased / dangling entries — each compared exactly with the model run in source-position order (the order detectFirstCycle uses since the determinism fix; the theorems hold for every order); %d random graphs on 6–30 jobs (oracle + cyclic/acyclic agreement with the model); non-trivial = distinct job lists with at least one needs entry", n4, n5, nBig)
+	r.Rule = fmt.Sprintf("every digraph on 1..3 jobs incl. self loops and up to two different dangling targets, every order of each job's needs list; %d digraphs on 4 jobs (all 65536 edge sets in thorough tier); %d random digraphs on 5 jobs with duplicate / re-cased / dangling entries — each compared exactly with the model run in source-position order (the order detectFirstCycle uses since the determinism fix; the theorems hold for every order); %d random graphs on 6–30 jobs (oracle + cyclic/acyclic agreement with the model); non-trivial = distinct job lists with at least one needs entry", n4, n5, nBig)
 	// n ≤ 3: all edge sets over targets {0..n-1, ghost}, all orders of each needs list
 	if full3 {
 		for n := 1; n <= 3; n++ {
-			m := n + 1
+			m := n + 2 // two distinct dangling targets
+			if n == 3 && c.quick {
+				m = n + 1
+			}
 			for mask := 0; mask < 1<<(uint(n*m)); mask++ {
 				base := make([][]int, n)
 				for i := 0; i < n; i++ {
@@ -469,8 +474,14 @@ func runC18(c *ctx, r *Report) error {
 					}
 				}
 			}
-			if rng.Intn(40) == 0 {
+			if rng.Intn(20) == 0 {
 				tg[i] = append(tg[i], 5) // dangling
+			}
+			if rng.Intn(20) == 0 {
+				tg[i] = append(tg[i], 6+rng.Intn(2)) // a second, different dangling id (sometimes next to the first)
+				if rng.Intn(2) == 0 {
+					tg[i] = append(tg[i], 5)
+				}
 			}
 			rng.Shuffle(len(tg[i]), func(a, b int) { tg[i][a], tg[i][b] = tg[i][b], tg[i][a] })
 		}
